@@ -194,6 +194,7 @@ pub fn index_opts(rng: &mut Rng) -> IndexOpts {
         key_overrides: vec![],
         file_info: rng.chance(1, 3),
         pruned_below: 0,
+        pruned_at: vec![],
     }
 }
 
